@@ -771,7 +771,7 @@ func (k *kctx) green(n int, class string) {
 		case "rand":
 			px[i] = uint32(k.r.U64())
 		case "extreme":
-			px[i] = uint32(k.r.Pick(0, 0xffffffff, 0x00ff00ff, 0xff00ff00, 0x0000ff00, 0x80808080, 0x7f7f7f7f, 0x01ff01ff, 0xff01ff01))
+			px[i] = []uint32{0, 0xffffffff, 0x00ff00ff, 0xff00ff00, 0x0000ff00, 0x80808080, 0x7f7f7f7f, 0x01ff01ff, 0xff01ff01}[k.r.Intn(9)]
 		}
 	}
 	for which, name := range []string{"AddGreenToBlueAndRed", "SubtractGreen"} {
